@@ -224,3 +224,14 @@ Arguments frow : clear implicits.
 Arguments fpay : clear implicits.
 Arguments nstate : clear implicits.
 Arguments istate : clear implicits.
+
+(* ------------------------------------------------------------------------------------------ *)
+(* tillage date under automatic harvest (nitro.go:231-249, after /repo F35), evaluated in sub-step 1 before the firing test:
+   a tillage that is due today while the crop is in the ground and its harvest is not yet known waits (+2 days); a tillage
+   date inside (sowing, harvest] is put on the day after the harvest when the harvest is automatic and the date has not passed,
+   otherwise the run ends with an error (None) *)
+Definition till_adapt (z saat ernte einte : Z) (autohar : bool) : option Z :=
+  let e1 := if (z =? einte) && (0 <? saat) && (saat <=? z) && (ernte =? 0) then einte + 2 else einte in
+  if (0 <? saat) && (saat <? e1) && (e1 <=? ernte)
+  then (if autohar && (z <=? e1) then Some (ernte + 1) else None)
+  else Some e1.
